@@ -101,6 +101,11 @@ func runC13(c *Ctx) {
 				for b := range li.blocks {
 					for _, in := range b.Instrs {
 						if !isStaticCall(in, "(*Conn).writeResponse") {
+							// a helper that writes one recipient's reply from its parameters: judged at this call
+							if ok, why, is := emitThroughHelper(c, in, fn); is {
+								nEmit++
+								R.Ob(c.siteKey(in, "per-recipient reply attribution (helper)"), c.P.InstrPos(in), ok, why)
+							}
 							continue
 						}
 						nEmit++
@@ -214,6 +219,7 @@ func runC13(c *Ctx) {
 	c.obWriters("Conn.bdatStatus", "one collector per chunked LMTP message", "(*Conn).handleBdat", "(*Conn).reset")
 	ruleResultOnEveryExit(c) // "never deadlocks": the command loop blocks on the delivery result
 	rulePanicUnderLock(c)
+	ruleNoSMTPErrorMutation(c)
 
 	R.Rule("R-status-nonblocking", "E1", "SetStatus and fillRemaining send only inside non-blocking selects on the recipient's channel; misuse panics instead of blocking the backend", 4)
 	if f := c.A.Func("(*statusCollector).SetStatus"); f != nil {
@@ -303,4 +309,77 @@ func ruleFillShape(c *Ctx) {
 		})
 		R.Ob("(*statusCollector).fillRemaining/no plain send", c.P.Pos(f.Pos()), nSend == 0 && nSel == 1, fmt.Sprintf("%d plain sends, %d selects", nSend, nSel))
 	}
+}
+
+// recvFromStatus: v is <-coll.status[idx]; returns the collector base and the index.
+func recvFromStatus(v ssa.Value) (coll, idx ssa.Value) {
+	rc, ok := stripConv(v).(*ssa.UnOp)
+	if !ok || rc.Op.String() != "<-" {
+		return nil, nil
+	}
+	ld, ok := rc.X.(*ssa.UnOp)
+	if !ok {
+		return nil, nil
+	}
+	ia, ok := ld.X.(*ssa.IndexAddr)
+	if !ok {
+		return nil, nil
+	}
+	fld, base := loadedField(ia.X)
+	if fld == nil || fld.Name() != "status" {
+		return nil, nil
+	}
+	return base, ia.Index
+}
+
+// emitThroughHelper: in is a call, inside an emission loop, of an unexported Conn helper whose only reply is
+// writeResponse(dataErrorToStatus(pB)#0, ..#1, "<"+pA+"> "+..#2). The attribution is then decided by the
+// arguments of this call: A = Conn.recipients[i], B = <-collector.status[i].
+func emitThroughHelper(c *Ctx, in ssa.Instruction, handler string) (ok bool, why string, is bool) {
+	cc := callCommon(in)
+	if cc == nil {
+		return false, "", false
+	}
+	h := staticCallee(cc)
+	if h == nil || !inSmtp(h) || isExported(h) || h.Blocks == nil || !strings.HasPrefix(funcName(h), "(*Conn).") {
+		return false, "", false
+	}
+	var wr []ssa.Instruction
+	allInstrs(h, func(x ssa.Instruction) {
+		if isStaticCall(x, "(*Conn).writeResponse") {
+			wr = append(wr, x)
+		}
+	})
+	if len(wr) != 1 {
+		return false, "", false
+	}
+	hcc := callCommon(wr[0])
+	code := describe(hcc.Args[1])
+	m := regexp.MustCompile(`^dataErrorToStatus\(param(\d+)\)#0$`).FindStringSubmatch(code)
+	if m == nil {
+		return false, "", false
+	}
+	bIdx := int(m[1][0] - '0')
+	text := describeVarargs(hcc.Args[3])
+	tm := regexp.MustCompile(`^\(\(\("<" \+ param(\d+)\) \+ "> "\) \+ dataErrorToStatus\(param` + m[1] + `\)#2\)$`).FindStringSubmatch(text)
+	if tm == nil || describe(hcc.Args[2]) != "dataErrorToStatus(param"+m[1]+")#1" {
+		return false, "helper " + funcName(h) + " writes code " + code + ", enhanced code " + describe(hcc.Args[2]) + ", text " + text, true
+	}
+	aIdx := int(tm[1][0] - '0')
+	if aIdx >= len(cc.Args) || bIdx >= len(cc.Args) {
+		return false, "helper parameters out of range", true
+	}
+	collV, idxV := recvFromStatus(cc.Args[bIdx])
+	coll := "(*Conn).createStatusCollector(param0)"
+	if handler == "(*Conn).handleBdat" {
+		coll = "Conn.bdatStatus"
+	}
+	if collV == nil || describe(collV) != coll {
+		return false, "status argument is " + describe(cc.Args[bIdx]) + ", want a receive from entry i of " + coll, true
+	}
+	idx := describe(idxV)
+	if describe(cc.Args[aIdx]) != "Conn.recipients["+idx+"]" || !strings.HasPrefix(idx, "(loopvar:rangeindex") {
+		return false, "recipient argument is " + describe(cc.Args[aIdx]) + " while the status comes from entry " + idx, true
+	}
+	return true, "", true
 }
